@@ -2,14 +2,15 @@
 (***************************************************************************)
 (* Bounded instance of Finder: every directory tree of at most MaxFiles    *)
 (* files over (DirIdx x NameIdx) (trees of more than one file are taken    *)
-(* from SmallIdx names only), under every configuration of the catalogue.  *)
+(* from SmallDirs x SmallIdx only), under every configuration of the       *)
+(* catalogue.                                                              *)
 (* TLC checks the theorems of Finder on every state and exports each state *)
 (* as one JSON line: configuration, files with the expected exposure, and  *)
 (* the lookup paths with what find() may answer (spec -> code replay).     *)
 (***************************************************************************)
 EXTENDS FinderPools, TLC, Json, IOUtils
 
-CONSTANTS CfgIdx, NameIdx, SmallIdx, DirIdx, MaxFiles
+CONSTANTS CfgIdx, NameIdx, SmallIdx, SmallDirs, DirIdx, MaxFiles
 
 VARIABLES cid, tree          \* configuration index; set of [d, n] entries
 mcVars == <<cid, tree>>
@@ -21,7 +22,7 @@ MCInit == cid \in CfgIdx /\ tree = {}
 Add(d, n) == LET e == [d |-> d, n |-> n] IN
              /\ e \notin tree
              /\ Cardinality(tree) < MaxFiles
-             /\ tree = {} \/ (n \in SmallIdx /\ \A x \in tree : x.n \in SmallIdx)
+             /\ tree = {} \/ \A x \in tree \cup {e} : x.n \in SmallIdx /\ x.d \in SmallDirs
              /\ tree' = tree \cup {e}
              /\ UNCHANGED cid
 MCNext == \E d \in DirIdx, n \in NameIdx : Add(d, n)
